@@ -628,6 +628,30 @@ def case_database(p):
                     out.append(("database:listed-field-not-preserved", {**p, "diff": df}))
             except Exception as e:  # noqa: BLE001
                 out.append((f"database:restored-cache-does-not-load:{type(e).__name__}", {**p, "err": str(e)[:200]}))
+        # ---- a later write-through under the SAME configuration number (state number, broadcast key and values change without a c# bump)
+        cpath3 = pathlib.Path(d) / "cache3.json"
+        try:
+            W2 = copy.deepcopy(W)
+            changed = False
+            for a_ in W2:
+                for s_ in a_.get("services", []):
+                    for c_ in s_.get("characteristics", []):
+                        v_ = c_.get("value")
+                        if not changed and isinstance(v_, (bool, int, str)) and "value" in c_:
+                            c_["value"] = (not v_) if isinstance(v_, bool) else (v_ + 1 if isinstance(v_, int) else v_ + "x")
+                            changed = True
+            sn2 = (sn or 0) + 1
+            bkey2 = bytes(reversed(bkey)) if bkey is not None else bytes(range(32))
+            cf3 = CharacteristicCacheFile(cpath3)
+            cf3.async_create_or_update_map(hkid, cn, copy.deepcopy(W), bkey.hex() if bkey is not None else None, sn)
+            cf3.async_create_or_update_map(hkid, cn, copy.deepcopy(W2), bkey2.hex(), sn2)
+            R3 = CharacteristicCacheFile(cpath3).get_map(hkid)
+            want3 = {"config_num": cn, "accessories": W2, "broadcast_key": bkey2.hex(), "state_num": sn2}
+            df = _diff(want3, dict(R3)) if R3 is not None else "entry missing"
+            if df:
+                out.append(("database:later-write-through-with-same-config-number-not-on-disk", {**p, "diff": df}))
+        except Exception as e:  # noqa: BLE001
+            out.append((f"database:second-write-through-raises:{type(e).__name__}", {**p, "err": str(e)[:200]}))
         # ---- end to end: pairing write-through -> restart -> pairing constructor restore
         alias, pdata = _pairing_for(p["transport"], p.get("seed", 0))
         d2 = env.sub()
